@@ -45,6 +45,18 @@ def layouts():
     xdoc.add_param(d, "F", xdoc.ptype_num("float", xdoc.numeric_enc("flt", 32)))
     xdoc.add_container(d, "ROOT", hdr + [("p", "A"), ("p", "F")])
     out.append(("fixed-float-tail", d))
+    for order in ("msb", "lsb"):
+        d, hdr = header_defn()
+        xdoc.add_param(d, "A", uint(8))
+        xdoc.add_param(d, "M", xdoc.ptype_num("float", xdoc.numeric_enc("flt", 32, order=order, fmt="mil1750a")))
+        xdoc.add_param(d, "F64", xdoc.ptype_num("float", xdoc.numeric_enc("flt", 64, order=order)))
+        xdoc.add_container(d, "ROOT", hdr + [("p", "A"), ("p", "M")])
+        out.append((f"1750a-float-tail-{order}", d))
+        d2, hdr2 = header_defn()
+        xdoc.add_param(d2, "A", uint(8))
+        xdoc.add_param(d2, "F64", xdoc.ptype_num("float", xdoc.numeric_enc("flt", 64, order=order)))
+        xdoc.add_container(d2, "ROOT", hdr2 + [("p", "A"), ("p", "F64")])
+        out.append((f"double-tail-{order}", d2))
     d, hdr = header_defn()
     xdoc.add_param(d, "A", uint(3))
     xdoc.add_param(d, "W", uint(16))
@@ -134,7 +146,7 @@ def run(ctx):
     groups = []
     for li, (name, d) in enumerate(layouts()):
         pk = []
-        for datalen in (1, 2, 3, 4, 5, 6, 7, 8, 12):
+        for datalen in (1, 2, 3, 4, 5, 6, 7, 8, 9, 12):
             for _ in range(10 if q else 60):
                 body = [rng.getrandbits(8) for _ in range(datalen)]
                 lens = [0, 1, 2, 3, datalen - 1, datalen, datalen - 3, 255, 254, 128, 127]
